@@ -135,6 +135,41 @@ Definition run_cp (P : cpprog) (w : option (list nat)) (shapes : list (list nat)
   end.
 Definition cp_prog : cpprog := mk_cpprog 2 1 1 1 2 1 2 [CNe VRankVar (VCur 1)] 0 true.
 
+(* ---------- _validate_parafac2_tensor((weights, factors, projections)) ---------- *)
+(* len(factors) must be p2_nf; the number of projections must be factors[0].shape[0]; rank = T.shape(factors[0])[1]; a loop over the
+   projections (unpacking, checks with the rank written VRankVar, the orthonormality test -- an ORACLE orth rank i here: it looks at
+   entries --, append of (variable, f.shape[0] for f in factors[p2_tail_from:])); a loop over factors[p2_fac_from:] (unpacking, checks);
+   the weights, if given, need T.shape(weights)[0] == rank *)
+Record p2prog := mk_p2prog {
+  p2_nf : nat; p2_arity : nat; p2_proj_checks : list vcond; p2_orth : bool; p2_shape_col : nat; p2_tail_from : nat;
+  p2_fac_from : nat; p2_fac_arity : nat; p2_fac_checks : list vcond; p2_weights_first : bool }.
+Fixpoint heads (l : list (list nat)) : option (list nat) :=
+  match l with [] => Some [] | [] :: _ => None | (x :: _) :: r => option_map (cons x) (heads r) end.
+Fixpoint p2_loop (P : p2prog) (rank : nat) (orth : nat -> bool) (tail : list nat) (i : nat) (l : list (list nat)) : res (list (list nat)) :=
+  match l with
+  | [] => Ok []
+  | cur :: r =>
+    if (length cur =? p2_arity P) && negb (existsb (evc 0 i [rank] cur) (p2_proj_checks P)) && (negb (p2_orth P) || orth i)
+    then rbind (p2_loop P rank orth tail (S i) r) (fun t => Ok ((nth (p2_shape_col P) cur 0 :: tail) :: t)) else Err
+  end.
+Definition run_p2 (P : p2prog) (w : option (list nat)) (fshapes pshapes : list (list nat)) (orth : nat -> nat -> bool)
+  : res (list (list nat) * nat) :=
+  if negb (length fshapes =? p2_nf P) then Err else
+  match nth 0 fshapes [] with
+  | nI :: rank :: _ =>
+    if negb (length pshapes =? nI) then Err else
+    match heads (skipn (p2_tail_from P) fshapes) with
+    | None => Err
+    | Some tail =>
+      rbind (p2_loop P rank (orth rank) tail 0 pshapes) (fun shp =>
+        if forallb (fun s => (length s =? p2_fac_arity P) && negb (existsb (evc 0 0 [rank] s) (p2_fac_checks P))) (skipn (p2_fac_from P) fshapes)
+           && (negb (p2_weights_first P) || match w with None => true | Some (n :: _) => n =? rank | Some [] => false end)
+        then Ok (shp, rank) else Err)
+    end
+  | _ => Err
+  end.
+Definition p2_prog : p2prog := mk_p2prog 3 2 [CNe VRankVar (VCur 1)] true 0 2 1 2 [CNe VRankVar (VCur 1)] true.
+
 (* ---------- the einsum equation of the einsum-backend tt_matrix_to_tensor ---------- *)
 (* labels as numbers; canonical renaming = order of first occurrence (operands left to right, then the output) *)
 Fixpoint index_in (x : nat) (l : list nat) : option nat :=
